@@ -62,11 +62,15 @@ def model_line(sc):
     return f"m-app {cfg} {plan} {enc_runs(sc['runs'])} {sc.get('sched') or '-'}"
 
 
-def project_model(trace_text):
-    """the model's trace without the events the real run cannot observe at a definite moment."""
+def project(trace_text):
+    """a trace without the events the real run cannot observe at a definite moment (`sockDropped` is seen
+    through garbage collection only; its place in the real trace is not compared)."""
     if trace_text == "-":
         return ""
     return ";".join(e for e in trace_text.split(";") if ":sockDropped:" not in e)
+
+
+project_model = project
 
 
 # ------------------------------------------------------------------ events -> bytes
@@ -172,8 +176,10 @@ def arg_out(a):
 
 def ev_out(ev):
     k = ev[0]
-    if k == "cb":
-        return f"cb:{ev[1]}:" + (",".join(arg_out(a) for a in ev[2]) if ev[2] else "-")
+    if k == "cbtext":
+        return ev[1]
+    if k == "sockDropped":
+        return f"sockDropped:{ev[1]}"
     if k == "dial":
         return f"dial:{ev[1]}"
     if k == "sleep":
@@ -188,10 +194,12 @@ def ev_out(ev):
         return "pingStop"
     if k == "ret":
         return f"ret:{int(bool(ev[1]))}"
-    if k == "raised":
-        return "raised:" + exn_out(ev[1])
+    if k == "raisedtext":
+        return ev[1]
     if k == "blocked":
         return "blocked"
+    if k == "closerCall":
+        return "closeCall"
     return None
 
 
@@ -214,9 +222,11 @@ def run_real(sc, line_preempt=None, wall_s=20.0, max_steps=6000):
 
     def mk(name):
         def f(app, *args):
+            if s.aborting:
+                raise simsched.SimAbort()
             k = counts[name]
             counts[name] += 1
-            s.emit("cb", name, args)
+            s.emit("cbtext", f"cb:{name}:" + (",".join(arg_out(a) for a in args) if args else "-"))
             acts = plan.get(name, "")
             a = acts[k] if k < len(acts) else "o"
             if a == "r":
@@ -239,19 +249,33 @@ def run_real(sc, line_preempt=None, wall_s=20.0, max_steps=6000):
               reconnect=(simsched.secs(sc["rc"]) if sc.get("rc") else 0))
     alive = []
     live_at_ret = []
+    go = [False]
 
     def main():
         for run in sc["runs"]:
             net.begin_run(outcomes_of(run))
             try:
                 r = app.run_forever(**rf)
+                alive.append([t.name for t in s.threads if t.state != "dead" and t is not s.current
+                              and t.name != "closer"])
+                # a close() still in progress in another thread finishes its work (it releases the transport)
+                for t in s.threads:
+                    if t.name == "closer" and t.state != "dead":
+                        go[0] = True
+                        s.block(lambda t=t: t.state == "dead", None)
+                if net.live():
+                    gc.collect()      # a transport that is merely unreachable is gone (sockDropped)
                 s.emit("ret", r)
             except simsched.SimAbort:
                 raise
             except BaseException as e:  # noqa
-                s.emit("raised", e)
-            alive.append([t.name for t in s.threads if t.state != "dead" and t is not s.current
-                          and t.name != "closer"])
+                if net.live():
+                    gc.collect()
+                s.emit("raisedtext", "raised:" + exn_out(e))
+                del e
+            if len(alive) < len(live_at_ret) + 1:
+                alive.append([t.name for t in s.threads if t.state != "dead" and t is not s.current
+                              and t.name != "closer"])
             live_at_ret.append(net.live())
 
     def closer_fn(t):
@@ -261,9 +285,16 @@ def run_real(sc, line_preempt=None, wall_s=20.0, max_steps=6000):
             app.close()
         return f
 
+    def closer_flag():
+        s.block(lambda: go[0], None)
+        s.emit("closerCall")
+        app.close()
+
     def body():
         for t in sc.get("closer", []) or []:
             s.spawn("closer", closer_fn(t))
+        if sc.get("closer_line") is not None:
+            s.spawn("closer", closer_flag)
         main()
 
     extra = [(_http, "socket", net), (_http, "_ssl_socket", lambda sock, sslopt, hostname: sock)]
@@ -272,8 +303,9 @@ def run_real(sc, line_preempt=None, wall_s=20.0, max_steps=6000):
     tracer = None
     try:
         with simsched.Patch(s, extra=extra):
-            if line_preempt is not None:
-                tracer = simsched.LinePreempt(s, line_preempt)
+            if sc.get("closer_line") is not None:
+                tracer = simsched.LinePreempt(s, sc["closer_line"], action=lambda: go.__setitem__(0, True),
+                                              prefix=os.path.dirname(websocket.__file__))
                 tracer.install()
             try:
                 outcome = s.run(body)
@@ -288,7 +320,7 @@ def run_real(sc, line_preempt=None, wall_s=20.0, max_steps=6000):
         o = ev_out(ev)
         if o is not None:
             items.append(f"{t}:{o}")
-    if outcome[0] == "blocked" and s.abort_reason in ("horizon", "deadlock"):
+    if s.abort_reason in ("horizon", "deadlock"):
         items.append(f"{horizon + 1}:blocked")
     res.trace = ";".join(items)
     res.raw = s.trace
@@ -297,17 +329,16 @@ def run_real(sc, line_preempt=None, wall_s=20.0, max_steps=6000):
     res.abort = s.abort_reason
     res.steps = s.steps
     res.choices = list(s.choices)
-    # transports still open and still referenced after the runs (garbage = gone)
-    app = holder.pop("app", None)
-    socks = [weakref.ref(k) for k in net.socks]
-    open_idx = [k.idx for k in net.socks if k.connected and not k.closed]
     res.select_stalls = [(t, ev[3]) for t, ev in s.trace if ev[0] == "select" and ev[2] is False and ev[3]]
-    res.badframes = [(k.idx, f) for k in net.socks for f in k.frames_written if not f[4]]
+    res.badframes = [(r.idx, f) for r in net.recs for f in r.frames_written if not f[4]]
     res.live_max = net.live_max
-    net.socks = []
+    res.lines = tracer.count if tracer else 0
+    res.fired_at = tracer.fired_at if tracer else None
+    # transports still open and still reachable after everything was dropped
+    holder.clear()
     del kw, app
     gc.collect()
-    res.leaked = [i for i, w in zip(open_idx, [socks[i] for i in open_idx]) if w() is not None]
+    res.leaked = net.live()
     res.leaked_at_return = live_at_ret
     return res
 
